@@ -339,7 +339,14 @@ class Effects:
         if k == "match":
             sc = self.eff(n["scrut"], where)
             arms = set()
+            tsc = H.render(n["scrut"])
+            only_some = "BUILTINFNS" in tsc and ".get(" in tsc
+            if only_some:
+                # `match BUILTINFNS.get(i) { Some(bt) => .., None => .. }`: same assumption as for the `if let` form
+                self.assumptions.add("GetBuiltinFn operands index BUILTINFNS (issued by Compiler::new from BUILTINFNS.iter().enumerate())")
             for a in n["arms"]:
+                if only_some and {H.last(v) for v in H.pat_variants(a["pat"])} == {"None"}:
+                    continue
                 g = self.eff(a.get("guard"), where) if a.get("guard") is not None else Z
                 arms |= self.seq(g, self.eff(a["body"], where))
             return self.seq(sc, arms)
